@@ -213,6 +213,11 @@ def outputCouplings (ds : List Disc) (i : Nat) (couplings : List String) : List 
 def inputCouplings (ds : List Disc) (i : Nat) (couplings : List String) : List String :=
   sortDedup ((inputsAt ds i).filter (fun v => couplings.contains v))
 
+/-- `find_discipline(output)`: the first discipline of the listing producing the output
+    (`none` = `ValueError`). -/
+def findDiscipline (ds : List Disc) (output : String) : Option Nat :=
+  (List.range ds.length).find? (fun i => (outputsAt ds i).contains output)
+
 /-- `DependencyGraph.get_disciplines_couplings()`: the edges with their sorted labels
     (here in lexicographic order of the pair of positions). -/
 def disciplinesCouplings (ds : List Disc) : List (Nat × Nat × List String) :=
